@@ -138,7 +138,7 @@ func callsOf(fn *ssa.Function) []callSite {
 
 func posOf(p *Program, in ssa.Instruction) string {
 	pos := p.fset.Position(in.Pos())
-	return fmt.Sprintf("%s:%d", strings.TrimPrefix(pos.Filename, "/repo/"), pos.Line)
+	return fmt.Sprintf("%s:%d", strings.TrimPrefix(pos.Filename, repoRoot+"/"), pos.Line)
 }
 
 func res(name, what string, bad []string) *FrameResult {
